@@ -331,6 +331,44 @@ theorem count_fan {col : Coll} (hu : Uniq col) (l : List Nat) (x : Nat) :
       simp [this, heldUp, hx']
 
 
+/-! ### the success lists never outnumber the request (precondition of curateFailedPoints' allocation) -/
+
+theorem filter_disj_length {p q : Nat → Bool} (h : ∀ x, ¬(p x = true ∧ q x = true)) (l : List Nat) :
+    (l.filter p).length + (l.filter q).length ≤ (l.filter fun x => p x || q x).length := by
+  induction l with
+  | nil => simp
+  | cons a l ih =>
+    have := h a
+    cases hp : p a <;> cases hq : q a <;> simp [List.filter_cons, hp, hq] at this ⊢ <;> omega
+
+theorem has_eq_contains (sh : Shard) : has sh.pts = fun i => sh.ids.contains i := by
+  funext i
+  rw [Bool.eq_iff_iff, has_iff, List.contains_iff_mem]
+  rfl
+
+theorem fan_length_le {col : Coll} (hu : Uniq col) (l : List Nat) :
+    (col.flatMap fun sh => if sh.up then l.filter (has sh.pts) else []).length ≤
+      (l.filter fun i => (Coll.ids col).contains i).length := by
+  induction col with
+  | nil => simp
+  | cons sh rest ih =>
+    have hu' : (Shard.ids sh ++ Coll.ids rest).Nodup := by simpa [Uniq, Coll.ids] using hu
+    have hrest : Uniq rest := (List.nodup_append.mp hu').2.1
+    have hdisj := (List.nodup_append.mp hu').2.2
+    have hA : (if sh.up then l.filter (has sh.pts) else []).length ≤ (l.filter fun i => sh.ids.contains i).length := by
+      split
+      · rw [has_eq_contains]; exact Nat.le_refl _
+      · simp
+    have hB := ih hrest
+    have hC := filter_disj_length (p := fun i => sh.ids.contains i) (q := fun i => (Coll.ids rest).contains i)
+      (by intro x ⟨h1, h2⟩; exact hdisj x (by simpa using h1) x (by simpa using h2) rfl) l
+    have hD : (fun i => (Coll.ids (sh :: rest)).contains i) = fun i => (sh.ids.contains i || (Coll.ids rest).contains i) := by
+      funext i
+      simp [Coll.ids]
+    rw [hD]
+    simp only [List.flatMap_cons, List.length_append]
+    omega
+
 /-! ### search: paging, concatenation, sort, cut -/
 
 theorem page_sublist {α} (limit offset : Nat) (l : List α) : (page limit offset l).Sublist l := by
